@@ -140,7 +140,7 @@ def scenarios(chk):
                     out.append((kind, op, ctl, "occupied", [(a, "occupied", c) for a, _, c in fl]))
                 # a referenced file is a symbolic link with a relative target beside it: a COPY delivers the bytes (the file in the
                 # destination is byte-identical to what the name denotes), not a link that dangles there
-                if n and op == "copy":
+                if n and op in ("copy", "move"):
                     for pos in range(n):
                         f2 = list(fl); f2[pos] = (f2[pos][0], "linkrel", f2[pos][2])
                         out.append((kind, op, ctl, "ok", f2))
@@ -198,6 +198,15 @@ def run(chk):
     for (kind, op, ctl, ctlstate, files), i, m in zip(scs, impl, model):
         occ = [n for n, st, _ in files if st == "occupied"] + ([ctl] if ctlstate == "occupied" else [])
         drop = {"+x" + b"D".hex() + "/x" + n.hex() for n in occ} if op == "copy" else ()
+        if op == "move" and ctlstate == "symlink":
+            # a control file that is a symbolic link is not renamed but copied and removed (internal.Move): it appears in the
+            # destination and THEN disappears at its source, where a rename shows the two the other way round; the model of this
+            # stream has no links (U20L has) - the two events of the control file are left out of the comparison, the order
+            # "control file last" is judged below on the real events all the same
+            drop = {"+x" + b"D".hex() + "/x" + ctl.hex(), "-x" + b"S".hex() + "/x" + ctl.hex()}
+        if op == "move":
+            # (likewise a listed file that is a symbolic link - since the r15 repair a MOVE delivers the bytes too)
+            drop = set(drop) | {e_ for n_, st_, _ in files if st_ == "linkrel" for e_ in ("+x" + b"D".hex() + "/x" + n_.hex(), "-x" + b"S".hex() + "/x" + n_.hex())}
         a, b = project_pair(i, m, drop)
         pi.append(a); pm.append(b)
     chk.compare("real-file-system-vs-model", mcases, pi, pm, nontrivial=lambda c, r: True, kernel=False)
@@ -491,8 +500,13 @@ def run(chk):
                         why = why or "after a nil error %s in the destination does not read the bytes of the original" % n.decode()
             elif i.startswith("ok"):
                 for n in names + [ctl]:
-                    if after.get(b"D/" + n) != before.get(b"S/" + n) or (b"S/" + n) in after:
-                        why = why or "after a successful move %s is not in the destination as it was at its source (or is still at its source)" % n.decode()
+                    # a plain file arrives as it was; a symbolic link arrives as the bytes it stood for (it is not moved as a link)
+                    was = before.get(b"S/" + n)
+                    want = ("F", read(before, b"S/" + n)) if was and was[0] == "L" else was
+                    same = was and was[0] == "L" and read(before, b"D/" + n) is not None and before.get(b"D/" + n, ("", b""))[0] == "L" \
+                        and before[b"D/" + n][1] == b"S/" + n
+                    if (after.get(b"D/" + n) != want and not same) or (b"S/" + n) in after:
+                        why = why or "after a successful move %s is not in the destination as the file it was at its source (or is still at its source)" % n.decode()
             else:
                 if after.get(b"D/" + ctl) != before.get(b"D/" + ctl) and (b"D/" + ctl) in after:
                     why = why or "the operation failed but a control file was put into the destination"
